@@ -75,15 +75,23 @@ func (f *fakeHTTP) Do(req *http.Request) (*http.Response, error) {
 	for _, kv := range f.header {
 		h.Add(kv[0], kv[1])
 	}
+	// A body handed out in pieces (chunk > 0) is also one of unknown length,
+	// as a chunked or streamed answer is, unless the script announces a
+	// Content-Length itself.
+	cl, te := int64(len(f.body)), []string(nil)
+	if f.chunk > 0 && h.Get("Content-Length") == "" {
+		cl, te = -1, []string{"chunked"}
+	}
 	return &http.Response{
-		Status:        fmt.Sprintf("%d %s", f.status, http.StatusText(f.status)),
-		StatusCode:    f.status,
-		Proto:         "HTTP/1.1",
-		ProtoMajor:    1,
-		ProtoMinor:    1,
-		Header:        h,
-		Body:          &fakeBody{r: bytes.NewReader(f.body), f: f},
-		ContentLength: int64(len(f.body)),
-		Request:       req,
+		TransferEncoding: te,
+		Status:           fmt.Sprintf("%d %s", f.status, http.StatusText(f.status)),
+		StatusCode:       f.status,
+		Proto:            "HTTP/1.1",
+		ProtoMajor:       1,
+		ProtoMinor:       1,
+		Header:           h,
+		Body:             &fakeBody{r: bytes.NewReader(f.body), f: f},
+		ContentLength:    cl,
+		Request:          req,
 	}, nil
 }
